@@ -247,6 +247,30 @@ fn u8_grammars<'s, I: ValueInput<'s, Token = u8, Span = SimpleSpan>>() -> Vec<(&
         ),
         ("not / and_is / rewind", any().and_is(just(b'x').not()).repeated().collect::<Vec<u8>>().then(just(b'x').rewind().or_not()).then(any().repeated().collect::<Vec<u8>>()).map(move |((a, o), b)| format!("{}{}{}", show(a), if o.is_some() { "!" } else { "." }, show(b))).boxed()),
         ("fold", digit().map(|d| (d - b'0') as u32).foldl(just(b'+').ignore_then(digit().map(|d| (d - b'0') as u32)).repeated(), |a, b| a * 10 + b).map(|n| n.to_string()).boxed()),
+        (
+            "and_is: long first operand, short second (cursor restored forwards)",
+            any().repeated().at_least(2).at_most(3).collect::<Vec<u8>>().and_is(just(b'a')).then(any().repeated().collect::<Vec<u8>>()).map(move |(a, b)| format!("{}&{}", show(a), show(b))).boxed(),
+        ),
+        (
+            "identifier that is not a keyword (ident.and_is(kw.not()))",
+            letter().repeated().at_least(1).collect::<Vec<u8>>().and_is(just(b'a').then(just(b'b')).then(letter().not()).not()).then(any().repeated().collect::<Vec<u8>>()).map(move |(a, b)| format!("{}~{}", show(a), show(b))).boxed(),
+        ),
+        (
+            "rewind after a long match, then re-parse a shorter one",
+            letter().repeated().collect::<Vec<u8>>().rewind().then(letter().then(letter().or_not()).map(|(a, b)| vec![a, b.unwrap_or(b'-')])).then(any().repeated().collect::<Vec<u8>>()).map(move |((a, b), c)| format!("{}<{}>{}", show(a), show(b), show(c))).boxed(),
+        ),
+        (
+            "nested choices failing at different depths, then a forward jump",
+            choice((just(b'a').then(just(b'a')).then(just(b'a')).then(just(b'(')).to("aaa(".to_string()), just(b'a').then(just(b'a')).then(just(b',')).to("aa,".to_string()), just(b'a').then(just(b'1')).to("a1".to_string())))
+                .or_not()
+                .then(any().and_is(any().then(any()).rewind().or_not()).repeated().collect::<Vec<u8>>())
+                .map(move |(a, r)| format!("{:?}/{}", a, show(r)))
+                .boxed(),
+        ),
+        (
+            "skip_then_retry_until recovery",
+            digit().repeated().at_least(1).collect::<Vec<u8>>().then_ignore(just(b',')).map(show).recover_with(skip_then_retry_until(any().ignored(), end())).repeated().collect::<Vec<String>>().map(|v| v.join(";")).boxed(),
+        ),
         ("try_map user error", any().repeated().at_most(3).collect::<Vec<u8>>().try_map(move |v: Vec<u8>, span| if v.len() == 2 { Err(Rich::custom(span, "two")) } else { Ok(show(v)) }).boxed()),
     ]
 }
@@ -480,7 +504,7 @@ pub fn run(cx: &RunCtx) -> i32 {
         cx,
         acc,
         Finish {
-            rule: format!("(1) every grammar with <= {size} nodes over the C01/C02/C08 class (probes, validate, all recovery strategies; to_slice left to C07) x every input <= {max_len} over {{a,b,é}}: &[char] is the reference; &str, Stream, mapped (token,span) slice always, and on every 3rd case also counting Stream, Stream::map, boxed Stream, exact-size boxed Stream, with_context, map_span and &[char; N]; the Input-only leaf basis on IterInput; every run normalised to token indices by the documented re-basing and compared field by field (acceptance, output with every node's extent, all errors with spans/expected/found/contexts, inspector state, probe trace), and each run also against the reference model; (2) {n_rand} random grammars x 4 multi-byte inputs on all kinds; (3) 6 hand-listed backtracking grammars x 28 inputs of 511..1301 tokens on &[char], &str, Stream, boxed and counting Stream; the counting iterator's pull log must be 0,1,2,... ; (4) 7 statically typed u8 grammars on &[u8] vs IoInput<Cursor>, Stream<u8>, &[u8;3]; (5) Graphemes: any().repeated() tokens vs unicode-segmentation on the whole string, spans tile the string. Non-trivial: the reference evaluation backtracked after consuming / accepted u8 input / text with a multi-codepoint cluster"),
+            rule: format!("(1) every grammar with <= {size} nodes over the C01/C02/C08 class (probes, validate, all recovery strategies; to_slice left to C07) x every input <= {max_len} over {{a,b,é}}: &[char] is the reference; &str, Stream, mapped (token,span) slice always, and on every 3rd case also counting Stream, Stream::map, boxed Stream, exact-size boxed Stream, with_context, map_span and &[char; N]; the Input-only leaf basis on IterInput; every run normalised to token indices by the documented re-basing and compared field by field (acceptance, output with every node's extent, all errors with spans/expected/found/contexts, inspector state, probe trace), and each run also against the reference model; (2) {n_rand} random grammars x 4 multi-byte inputs on all kinds; (3) 6 hand-listed backtracking grammars x 28 inputs of 511..1301 tokens on &[char], &str, Stream, boxed and counting Stream; the counting iterator's pull log must be 0,1,2,... ; (4) 12 statically typed u8 grammars on &[u8] vs IoInput<Cursor>, Stream<u8>, &[u8;3]; (5) Graphemes: any().repeated() tokens vs unicode-segmentation on the whole string, spans tile the string. Non-trivial: the reference evaluation backtracked after consuming / accepted u8 input / text with a multi-codepoint cluster"),
             exhaustive: false,
             exhaustive_note: format!("grammars <= {size} nodes x inputs <= {max_len}: complete on &[char], &str, Stream, mapped"),
             assumptions: vec![
